@@ -50,7 +50,7 @@ Inductive obs :=
 | BAudit (l : list (N * bool)).         (* (revision, is a deletion) *)
 
 Inductive case :=
-| CHist (nz strict uf : bool)            (* probed facts about the code: see `flags` in Doc/Model.v *)
+| CHist (nz : bool)                      (* the key encoder keeps the sign of zero (probed; see s_nz) *)
         (idname : bytes) (fields : list (bytes * ftype)) (indexes : list index)
         (steps : list (op * obs)).
 
@@ -128,6 +128,6 @@ Fixpoint steps_ok (st : state) (l : list (op * obs)) : bool :=
 
 Definition case_ok (c : case) : bool :=
   match c with
-  | CHist nz strict uf idname fields indexes steps =>
-      steps_ok (init (new_schema (mkfl nz strict uf) idname fields indexes)) steps
+  | CHist nz idname fields indexes steps =>
+      steps_ok (init (new_schema nz idname fields indexes)) steps
   end.
